@@ -7,7 +7,8 @@
  3. store patch, demo, notes and meta.json under /verif/seeded/<name>/.
 """
 import subprocess, sys, os, json, shutil, re, time
-REPO = "/repo"
+REPO = os.environ.get("SEEDED_REPO", "/repo")          # tree the patch is applied to for the detection step
+VERIF = os.environ.get("SEEDED_VERIF", "/verif")       # machinery whose ./check is run (a scratch copy must depend on SEEDED_REPO)
 VW = "/tmp/seedverify"
 
 def sh(cmd, cwd=None, timeout=3600):
@@ -82,13 +83,13 @@ def main():
         try:
             for c in checks:
                 t = time.time()
-                r = subprocess.run(["/verif/check", c, "quick"], capture_output=True, text=True, env=dict(os.environ, VERIF_EVIDENCE_SUFFIX=".seeded"))
+                r = subprocess.run([VERIF + "/check", c, "quick"], capture_output=True, text=True, env=dict(os.environ, VERIF_EVIDENCE_SUFFIX=".seeded"))
                 lines = [l for l in r.stdout.splitlines() if l.startswith(("VIOLATION", "  campaign", "INCONCLUSIVE"))]
                 meta["detection"][c] = {"exit": r.returncode, "seconds": round(time.time() - t), "report": [l[:400] for l in lines[:3]]}
         finally:
             sh(f"git -C {REPO} checkout -- .")
             for c in checks:
-                try: os.remove(f"/verif/evidence/{c}.seeded.json")
+                try: os.remove(f"{VERIF}/evidence/{c}.seeded.json")
                 except FileNotFoundError: pass
         meta["detected_by"] = [c for c, v in meta["detection"].items() if v["exit"] == 1]
     # --- 3. store
